@@ -3,10 +3,15 @@ import CollectionsC.Proofs.TSTCross
 /-! # C06 (TST table part): memory safety and leak freedom
 
 `Mem.fault` is set by a dangling node address, by running out of iterator fuel or by a free with nothing
-live; `Mem.live` counts the blocks obtained through the configured triple.  The table owns
-`1 + nodes + marked` blocks (header, one per node, one per entry: `Table.Owns`, `Node.owned`).
-The structural facts hold for **every** key, the empty one included (X5 is a functional defect only);
-the iterator-program facts need the full invariant `Good`, hence `_partial`. -/
+live; `Mem.liveT t.triple` counts the blocks obtained through the table's allocator triple (`live` for
+`cc_tsttable_new_conf`, `liveLibc` for `cc_tsttable_new`).  The table owns `1 + nodes + marked` blocks
+(header, one per node, one per entry: `Table.Owns`, `Node.owned`).
+`StructOK cmp t mem t' mem'` (Proofs/TSTCross.lean) bundles: structural invariant of `t'`, `fault`
+unchanged, same triple, and the **exact** ledger equation
+`mem'.liveT + owned t = mem.liveT + owned t'` — a leaked block falsifies it.
+All of this holds for **every** key, the empty one included (X5 is a functional defect only), for table
+calls and for whole iterator sessions (`Op.iterate`: `iter_init` then any `iter_next` / `iter_remove` /
+query calls, repeated removes included). -/
 namespace CC.Properties.C06TST
 open CC CC.TST
 open CC.Spec (StrMap)
@@ -19,77 +24,107 @@ theorem nofault (t : Table) (op : Op) (mem : Mem) (hi : t.Inv cmp) (hl : t.Owns 
     (t.step cmp op mem).2.2.fault = mem.fault ∧ (t.step cmp op mem).2.1.Inv cmp :=
   ⟨(Table.step_struct t op mem hi hl).2.1, (Table.step_struct t op mem hi hl).1⟩
 
-/-- (b) **ledger, per step**: the change of `live` is the change of the number of blocks the table owns
-(`add` of a new key: chain nodes + entry; `remove`: entry + pruned nodes; `remove_all`: everything) -/
+/-- (b) **ledger, per step** (exact): the change of the live-block counter is the change of the number
+of blocks the table owns (`add` of a new key: chain nodes + entry; `remove` / `iter_remove`: entry +
+pruned nodes; `remove_all`: everything) -/
 theorem ledger (t : Table) (op : Op) (mem : Mem) (hi : t.Inv cmp) (hl : t.Owns mem) :
-    (t.step cmp op mem).2.2.live + t.root.owned = mem.live + (t.step cmp op mem).2.1.root.owned ∧
+    (t.step cmp op mem).2.2.liveT t.triple + t.root.owned =
+      mem.liveT t.triple + (t.step cmp op mem).2.1.root.owned ∧
     (t.step cmp op mem).2.1.Owns (t.step cmp op mem).2.2 :=
-  ⟨(Table.step_struct t op mem hi hl).2.2, Table.step_owns t op mem hi hl⟩
+  ⟨(Table.step_struct t op mem hi hl).2.2.2, (Table.step_struct t op mem hi hl).owns hl⟩
 
-/-- (a) lifted to histories, for every key set and every refusal schedule -/
+/-- one call of an iterator session: exact ledger, no fault (no dangling node address although
+`iter_remove` frees nodes the iterator has passed; the fuel bound `2·nodes + 2` always suffices) -/
+theorem iter_call_ledger (t : Table) (it : Iter) (op : IOp) (mem : Mem) (todo : List (Path × Entry))
+    (hi : t.Inv cmp) (hl : t.Owns mem) (hok : IterOk t.root it todo) (hcm : it.curMarked t.root) :
+    StructOK cmp t mem (t.iterOp cmp it op mem).2.1 (t.iterOp cmp it op mem).2.2.2 :=
+  (Table.iterOp_struct t it op mem todo hi hl hok hcm).1
+
+/-- (a)+(b) lifted to histories (iterator sessions included), for every key set and refusal schedule -/
 theorem history_nofault (ops : List Op) (t : Table) (mem : Mem) (hi : t.Inv cmp) (hl : t.Owns mem) :
     (t.run cmp ops mem).2.2.fault = mem.fault ∧ (t.run cmp ops mem).2.1.Inv cmp ∧
-    (t.run cmp ops mem).2.2.live + t.root.owned = mem.live + (t.run cmp ops mem).2.1.root.owned :=
-  ⟨(Table.run_struct t ops mem hi hl).2.1, (Table.run_struct t ops mem hi hl).1, (Table.run_struct t ops mem hi hl).2.2⟩
+    (t.run cmp ops mem).2.2.liveT t.triple + t.root.owned =
+      mem.liveT t.triple + (t.run cmp ops mem).2.1.root.owned :=
+  ⟨(Table.run_struct t ops mem hi hl).2.1, (Table.run_struct t ops mem hi hl).1,
+   (Table.run_struct t ops mem hi hl).2.2.2⟩
 
-/-- (b) **construct, any history, destroy: `live` is back to its initial value and nothing faulted** —
-every node and entry block is released exactly once, whatever the allocator refused on the way. -/
-theorem destroy_releases_all (m0 : Mem) (ops : List Op) :
-    ∀ t, (Table.new m0).2.1 = some t →
-      ((t.run cmp ops (Table.new m0).2.2).2.1.destroy (t.run cmp ops (Table.new m0).2.2).2.2).live = m0.live ∧
-      ((t.run cmp ops (Table.new m0).2.2).2.1.destroy (t.run cmp ops (Table.new m0).2.2).2.2).fault = m0.fault := by
+/-- (b) **construct (either constructor), any history, destroy: the live-block counter is back to its
+initial value and nothing faulted** — every node and entry block is released exactly once, whatever
+the allocator refused on the way. -/
+theorem destroy_releases_all (tr : Triple) (m0 : Mem) (ops : List Op) :
+    ∀ t, (Table.new tr m0).2.1 = some t →
+      ((t.run cmp ops (Table.new tr m0).2.2).2.1.destroy (t.run cmp ops (Table.new tr m0).2.2).2.2).liveT tr =
+        m0.liveT tr ∧
+      ((t.run cmp ops (Table.new tr m0).2.2).2.1.destroy (t.run cmp ops (Table.new tr m0).2.2).2.2).fault =
+        m0.fault := by
   intro t ht
-  have hn := Table.new_spec m0
-  have hok : (Table.new m0).1 = .ok := by
-    by_cases h : (Table.new m0).1 = .ok
+  have hn := Table.new_spec tr m0
+  have hok : (Table.new tr m0).1 = .ok := by
+    by_cases h : (Table.new tr m0).1 = .ok
     · exact h
     · have := (hn.2.1 h).2.1; rw [ht] at this; cases this
   obtain ⟨h1, h2⟩ := hn.1 hok
   rw [ht] at h1; simp only [Option.some.injEq] at h1; subst h1
-  have hi : (Table.mk 0 .nil).Inv cmp := ⟨rfl, trivial, trivial⟩
-  have hl : (Table.mk 0 .nil).Owns (Table.new m0).2.2 := by unfold Table.Owns; simp; omega
-  have hr := Table.run_struct (cmp := cmp) ⟨0, .nil⟩ ops _ hi hl
-  have hl' : ((Table.mk 0 .nil).run cmp ops (Table.new m0).2.2).2.1.Owns ((Table.mk 0 .nil).run cmp ops (Table.new m0).2.2).2.2 := by
-    unfold Table.Owns at hl ⊢; have := hr.2.2; simp at this hl ⊢; omega
-  have hd := Table.destroy_spec _ _ hr.1.1 hl'
-  refine ⟨?_, by rw [hd.2, hr.2.1, hn.2.2]⟩
-  rw [hd.1]; have := hr.2.2; simp at this; omega
+  have hi : (Table.mk 0 .nil tr).Inv cmp := ⟨rfl, trivial, trivial⟩
+  have hl : (Table.mk 0 .nil tr).Owns (Table.new tr m0).2.2 := by unfold Table.Owns; simp; omega
+  obtain ⟨r1, r2, r3, r4⟩ := Table.run_struct (cmp := cmp) ⟨0, .nil, tr⟩ ops _ hi hl
+  have hl' := (Table.run_struct (cmp := cmp) ⟨0, .nil, tr⟩ ops _ hi hl).owns hl
+  have hd := Table.destroy_spec _ _ r1.1 hl'
+  rw [r3] at hd
+  simp only [owned_nil] at r4
+  unfold Table.Owns at hl'
+  rw [r3] at hl'
+  dsimp only at hd r4 hl' h2
+  refine ⟨?_, by rw [hd.2, r2, hn.2.2]⟩
+  rw [hd.1]; omega
 
 /-- a refused constructor leaves nothing behind -/
-theorem new_refused_releases_all (m0 : Mem) (h : (Table.new m0).1 ≠ .ok) :
-    (Table.new m0).2.1 = none ∧ (Table.new m0).2.2.live = m0.live ∧ (Table.new m0).2.2.fault = m0.fault :=
-  ⟨((Table.new_spec m0).2.1 h).2.1, ((Table.new_spec m0).2.1 h).2.2, (Table.new_spec m0).2.2⟩
+theorem new_refused_releases_all (tr : Triple) (m0 : Mem) (h : (Table.new tr m0).1 ≠ .ok) :
+    (Table.new tr m0).2.1 = none ∧ (Table.new tr m0).2.2.liveT tr = m0.liveT tr ∧
+    (Table.new tr m0).2.2.fault = m0.fault :=
+  ⟨((Table.new_spec tr m0).2.1 h).2.1, ((Table.new_spec tr m0).2.1 h).2.2, (Table.new_spec tr m0).2.2⟩
 
-/-- **`remove` frees the entry block** (and every pruned node): strictly fewer owned blocks, `live` drops
-by exactly that amount (defect X1 was: the entry was never freed) -/
+/-- **`remove` frees the entry block** (and every pruned node): strictly fewer owned blocks, the counter
+drops by exactly that amount (defect X1 was: the entry was never freed) -/
 theorem remove_frees_entry_partial (hc : CmpLaw cmp) (t : Table) (k : Key) (mem : Mem) (v : Nat)
     (hk : k ≠ []) (hg : t.Good cmp) (hl : t.Owns mem) (hp : t.abs.get k = some v) :
     (t.remove cmp k mem).2.2.1.root.owned < t.root.owned ∧
-    (t.remove cmp k mem).2.2.2.live + t.root.owned = mem.live + (t.remove cmp k mem).2.2.1.root.owned ∧
+    (t.remove cmp k mem).2.2.2.liveT t.triple + t.root.owned =
+      mem.liveT t.triple + (t.remove cmp k mem).2.2.1.root.owned ∧
     (t.remove cmp k mem).2.2.2.fault = mem.fault := by
   have h := C11.remove_refines_partial hc t k mem v hk hg hl hp
   exact ⟨h.2.2.2.2.2.1, h.2.2.2.2.1, h.2.2.2.2.2.2⟩
 
+/-- **`iter_remove` frees the entry block** of the yielded element (and every pruned node) -/
+theorem iter_remove_frees_entry (t : Table) (it : Iter) (w : Bool) (mem : Mem) (todo : List (Path × Entry))
+    (p : Path) (e : Entry) (hl : t.Owns mem) (hat : IterAt t.root it todo) (hadv : it.adv = false)
+    (hcur : it.cur = some p) (hd : (t.root.sub p).data? = some e) :
+    (iterRemove t it w mem).2.2.1.root.owned < t.root.owned ∧
+    (iterRemove t it w mem).2.2.2.2.liveT t.triple + t.root.owned =
+      mem.liveT t.triple + (iterRemove t it w mem).2.2.1.root.owned := by
+  obtain ⟨_, _, h3, h4, _, _⟩ := iterRemove_ok t it w mem todo p e hat hadv hcur hd
+  obtain ⟨_, _, q3, _, q6⟩ := remAt_spec t.triple t.root p mem e hd (by unfold Table.Owns at hl; omega)
+  rw [h3, h4]; exact ⟨q6, q3⟩
+
 /-- **`remove_all` frees every node and every entry block** -/
 theorem removeAll_frees_all (t : Table) (mem : Mem) (hi : t.Inv cmp) (hl : t.Owns mem) :
-    (t.removeAll mem).1 = ⟨0, .nil⟩ ∧ (t.removeAll mem).2.live + t.root.owned = mem.live ∧
+    (t.removeAll mem).1 = { t with size := 0, root := .nil } ∧
+    (t.removeAll mem).2.liveT t.triple + t.root.owned = mem.liveT t.triple ∧
     (t.removeAll mem).2.fault = mem.fault := by
   have h := Table.removeAll_spec t mem hi.1 hl
-  refine ⟨h.1, ?_, h.2.2.1⟩
+  refine ⟨h.1, ?_, h.2.2⟩
   rw [h.2.1]; unfold Table.Owns at hl; omega
-
-/-- `iter_next` / `iter_remove` programs: no fault (no dangling node address although `iter_remove`
-frees nodes the iterator has passed; the fuel bound `2·nodes + 2` always suffices), ledger kept -/
-theorem iter_history_nofault_partial (hc : CmpLaw cmp) (ops : List IOp) (t : Table) (mem : Mem)
-    (hg : t.Good cmp) (hl : t.Owns mem) (hlegal : StrMap.legalProg false ops = true) :
-    (t.iterRun (iterInit t) ops mem).2.2.2.fault = mem.fault ∧ (t.iterRun (iterInit t) ops mem).2.1.Good cmp :=
-  ⟨(C11.iter_init_program_refines_partial hc ops t mem hg hl hlegal).2.2.2.2,
-   (C11.iter_init_program_refines_partial hc ops t mem hg hl hlegal).2.2.2.1⟩
 
 /-- (c) the only callback variants of this container are `foreach_key` / `foreach_value`: each held
 pair is handed to the callback exactly once (callback log = `abs`, in first-arrival pre-order) -/
 theorem foreach_visits_each_once (t : Table) (mem : Mem) :
     (iterAll t mem).1 = t.abs.items ∧ (iterAll t mem).2 = mem := by
   rw [iterAll_eq]; exact ⟨rfl, rfl⟩
+
+/-! non-vacuity: a concrete table with nested prefixes, its ledger, and a session that removes through
+the iterator -/
+example : C11.nestedTable.Inv cmpSigned ∧ C11.nestedTable.Owns { live := 7 } ∧
+    (C11.nestedTable.step cmpSigned (.iterate [.next, .next, .remove true, .remove false, .next]) { live := 7 }).2.2.live = 5 := by
+  refine ⟨by decide, by unfold Table.Owns; decide, by decide⟩
 
 end CC.Properties.C06TST
